@@ -1157,6 +1157,17 @@ val find_fn : mins list -> z
 
 val mov_ok : z -> binstr -> z -> z -> z -> mins list -> bool
 
+type lins =
+| LLoadBudget
+| LCmpRax of z
+| LJbTerm
+| LDecRax
+| LStoreBudget
+
+val lins_eqb : lins -> lins -> bool
+
+val limit_ok : lins list -> bool
+
 type kind =
 | KPrintIr
 | KPrintBc
